@@ -13,8 +13,8 @@ reported an error: truncated or malformed XML), and one *handler program* per in
 list of `read` / `write tokens` steps and a return value.  A handler ignores the errors of its
 reads (the worst case: a handler that returns the error ends the session anyway).
 
-Not modelled (assumptions of the theorems, listed in meta/C07.json and meta/C08.json): the
-WebSocket framing flag (`ws = false`).  Modelled in separate entry points further down: pending
+The WebSocket framing flag is modelled as a relabelling of the input (`wsInput`).  Modelled in
+separate entry points further down: pending
 correlated requests (`serveP`), a closed / broken output and the close deadline (`serveC`), a
 connection that refuses writes (`serveW`).
 -/
@@ -119,9 +119,50 @@ def closes : Nat → List Tok → Bool
   | d + 1, .stop _ :: ts => closes d ts
   | d, _ :: ts => closes d ts
 
+/-- namespace of the WebSocket framing elements `<open/>` and `<close/>` (RFC 7395) -/
+def nsFraming : String := "urn:ietf:params:xml:ns:xmpp-framing"
+
+/-- local name (in the stream namespace) that stands for the `<close/>` framing element of a
+session that uses the WebSocket subprotocol, see `wsInput`.  It contains a space, so no XML
+decoder can produce it: on the tokens of a real input the arm of `verdict` that tests it is
+dead unless `wsInput true` put it there. -/
+def wsCloseMark : String := "ws close"
+
+/-- The framing check of `reader.Token` (`r.ws && t.Name.Space == wsNamespace && !r.negotiating`,
+the first thing it does with a start tag): on a session that uses the WebSocket subprotocol
+(`ws = true`) a *top-level* start tag in the framing namespace named `close` is the peer's closing
+element (`io.EOF`); any other one — `<open/>` = a stream restart, and also a `<close/>` *inside*
+another element — is `ErrUnexpectedRestart`, with the depth counted up like for every start tag.
+The model represents that check as a relabelling of the session's input in front of `verdict`
+(`d` = number of elements open at this token): the top-level `close` becomes a stream-namespace
+start tag named `wsCloseMark`, every other framing start tag becomes `<stream:stream>` (for which
+`verdict` answers exactly `ErrUnexpectedRestart` with the depth counted up).  End tags are not
+touched (the reader only tests start tags).  With `ws = false` nothing is relabelled: framing
+elements are ordinary content on a TCP stream. -/
+def wsTok (ws : Bool) (d : Nat) : Tok → Tok
+  | .start n as =>
+    if ws && n.space == nsFraming then
+      (if n.loc == "close" && d == 0 then .start ⟨nsStream, wsCloseMark⟩ as
+       else .start ⟨nsStream, "stream"⟩ as)
+    else .start n as
+  | t => t
+
+/-- nesting after a token, as `reader.Token` counts it (`depth++` / `depth--`) -/
+def depthStep (d : Nat) : Tok → Nat
+  | .start .. => d + 1
+  | .stop _ => d - 1
+  | _ => d
+
+/-- the input of a session as its stream reader classifies it (see `wsTok`), from nesting `d` on -/
+def wsInputD (ws : Bool) : Nat → List Tok → List Tok
+  | _, [] => []
+  | d, t :: ts => wsTok ws d t :: wsInputD ws (depthStep d t) ts
+
+def wsInput (ws : Bool) (inp : List Tok) : List Tok := wsInputD ws 0 inp
+
 /-- `reader.Token` (internal/stream/reader.go) on one token at nesting `depth`, for
-`ws = false`, `negotiating = false`: new depth and verdict.  `rest` is only used to decode a
-received stream error. -/
+`negotiating = false`: new depth and verdict.  The WebSocket flag is handled by `wsInput`.
+`rest` is only used to decode a received stream error. -/
 def verdict (depth : Nat) (t : Tok) (rest : List Tok) : Nat × Rd :=
   match t with
   | .chars s => (depth, if depth == 0 && !isWs s then .err .chardata else .tok t)
@@ -135,6 +176,7 @@ def verdict (depth : Nat) (t : Tok) (rest : List Tok) : Nat × Rd :=
           | none => .err .decoder
          else .err .decoder)
       else if n.loc == "stream" then .err .restart
+      else if n.loc == wsCloseMark then .eof
       else .err .unknownElem)
   | .stop n =>
     (depth - 1,
@@ -534,6 +576,30 @@ def muxEffective (reg : Bool) (cfg : Cfg) (n : Name) (as : List Attr) (body : Li
        | .elem _ => run)
     | _, _ => { ops := [], ret := .addrErr }
 
+/-- which IQ handlers a `mux.ServeMux` has: one handler registered (`mux.IQ(typ, payload, h)`) for
+each of the listed types, for one payload name or (`none`) for the wildcard payload -/
+structure MuxReg where
+  types : List String
+  payload : Option Name
+  deriving Repr
+
+/-- `ServeMux.IQHandler(typ, payloadName)` finds a registered handler (the lookup cascade exact
+name → local name → namespace → wildcard finds, for a registration with a full name, exactly
+that name; for the wildcard registration, everything) -/
+def MuxReg.has (r : MuxReg) (typ : String) (pl : Payload) : Bool :=
+  r.types.contains typ &&
+    (match r.payload with
+     | none => true
+     | some n => pl == .elem n)
+
+/-- `muxEffective` for a multiplexer with the registrations `r`: whether the recording handler or
+the fallback runs is decided per request, by its type and the name of its payload -/
+def muxEffectiveG (r : MuxReg) (cfg : Cfg) (n : Name) (as : List Attr) (body : List Tok) (p : Prog) : Prog :=
+  muxEffective (r.has (getTyp as) (firstPayload body)) cfg n as body p
+
+/-- `Serve(nil)`: the session's `nopHandler` reads nothing, writes nothing and returns nil -/
+def nilHandlerProg : Prog := Prog.nop
+
 /-- `iq.Result(nil)`: the reply a handler builds from the IQ `stanza.NewIQ` parsed — the request
 with to/from swapped, type result and **the id exactly as it was read** -/
 def resultReply (n : Name) (id : String) (to frm : Option String) : List Tok :=
@@ -603,6 +669,33 @@ structure Pend where
   name : Name
   deriving DecidableEq, Repr
 
+/-- how a local request that expects a response (`sendResp` behind `SendIQ`, `SendIQElement`, the
+waiting variants of `SendMessage` / `SendPresence`) stands when the input is served: it is still
+waiting, its transmission failed (the call returned the error), or the caller's context ended
+while it waited (the call returned `ctx.Err()`) -/
+inductive Fate | waiting | sendFailed | gaveUp
+  deriving DecidableEq, Repr, Inhabited
+
+structure Req where
+  id : String
+  name : Name
+  fate : Fate
+  deriving DecidableEq, Repr
+
+/-- `sendResp` as far as the `sentStanzas` table is concerned: the entry `id ↦ name` is put into
+the map *before* the request is transmitted (replacing an entry with the same id) and a deferred
+`delete(s.sentStanzas, id)` runs when the call returns — after a failed transmission, after the
+caller gave up waiting, or after the response was handed over.  Only a call that is still
+waiting has an entry. -/
+def sendRespTable (tbl : List Pend) (r : Req) : List Pend :=
+  let ins := tbl.filter (fun p => p.id != r.id) ++ [⟨r.id, r.name⟩]
+  match r.fate with
+  | .waiting => ins
+  | _ => ins.filter (fun p => p.id != r.id)
+
+/-- the table after a history of local requests, oldest first -/
+def tableOf (reqs : List Req) : List Pend := reqs.foldl sendRespTable []
+
 /-- `readerChan, ok := s.sentStanzas[id]; ok && name == start.Name || name == {Local: start.Name.Local}` -/
 def pendMatch (pend : List Pend) (id : String) (n : Name) : Option Pend :=
   match pend.find? (fun p => p.id == id) with
@@ -649,9 +742,12 @@ def serveP (cfg : Cfg) (pend : List Pend) (inp : List Tok) (progs : List Prog) :
 /-! ### the state of the output: open, left inside an element, closed
 
 After `Session.Close` every write fails (`ErrOutputStreamClosed`), including the flush after
-the handler.  After a write that left an element open, or that the encoder refused (an end tag
-without a start tag), every *later* writer fails with `errOutputBroken` (its flush does not).
-In both states the reply detector still sees the tokens the handler tries to write, and
+the handler.  A handler that returns nil after a write that left an element open, or that the
+encoder refused (an end tag without a start tag), ends the session with `errOutputBroken`; after
+a `Send` call of the application that was abandoned inside an element every *later* writer fails
+with `errOutputBroken`, and a handler that tried to write ends the session with it.
+In both states a reply the handler tries to write is refused and therefore does not count as
+the reply (the automatic reply is due, and ends the session), and
 `sendError` / `Close` return what they always return: the state of the output never changes
 the value `Serve` returns for the way the *input* ended. -/
 
@@ -686,15 +782,27 @@ def leavesBroken (ts : List Tok) : Bool := (encWire 0 ts).1 != 0 || (encWire 0 t
 /-- `handleElem` for any state of the output at entry; the handler may close the output first -/
 def handleElemC (cfg : Cfg) (st : OutSt) (n : Name) (as : List Attr) (rs1 : RS) (prog : Prog) : Step :=
   let st1 : OutSt := if prog.close then .closed else st
-  if st1 == .opn then (handleElem cfg n as rs1 prog).mapWritten fun w => (encWire 0 w).2.2 else
+  if st1 == .opn then
+    -- a handler that returns nil with an element of its own still open (or one of whose tokens
+    -- the encoder refused) has left the stream inside an element: the session ends at once
+    (if prog.ret == .ok && leavesBroken (writesOf prog.ops) then
+      .stop (some { start := .start n (blankFrom cfg n as),
+                    view := (runOps (getId (blankFrom cfg n as)) prog.ops { rs := rs1, cnt := 0, fin := false } WS.init []).1 })
+        (encWire 0 (writesOf prog.ops)).2.2 (.error .outputBroken)
+     else (handleElem cfg n as rs1 prog).mapWritten fun w => (encWire 0 w).2.2) else
   match prog.ret with
   | .ok =>
     let as' := blankFrom cfg n as
     let id := getId as'
     let (view, es1, ws1) := runOps id prog.ops { rs := rs1, cnt := 0, fin := false } WS.init []
     let inv : Inv := { start := .start n as', view := view }
-    let needs := isIq n && isRequestTyp (getTyp as') && !ws1.wrote
-    if needs && (replyTo cfg as').isNone then .stop (some inv) [] (.error .badJid)
+    -- every token a handler tries to write in this state is refused, and a reply that was
+    -- refused is not a reply: a get/set IQ is still unanswered whatever the handler attempted
+    let needs := isIq n && isRequestTyp (getTyp as')
+    -- (every token was refused: the handler leaves a writer that failed on an output that is
+    -- still open - the first thing the session looks at after the handler returned)
+    if st1 == .broken && !(writesOf prog.ops).isEmpty then .stop (some inv) [] (.error .outputBroken)
+    else if needs && (replyTo cfg as').isNone then .stop (some inv) [] (.error .badJid)
     else if needs then .stop (some inv) [] (.error (if st1 == .closed then .outputClosed else .outputBroken))
     else if st1 == .closed && !(writesOf prog.ops).isEmpty then .stop (some inv) [] (.error .outputClosed)
     else
@@ -749,6 +857,11 @@ def serveC (cfg : Cfg) (closed : Bool) (inp : List Tok) (progs : List Prog) : Ou
 def serveCD (cfg : Cfg) (closed : Bool) (pre : List Nat) (inp : List Tok) (progs : List Prog) : Out :=
   serveFC cfg (inp.length + 1) (if closed then .closed else .opn) (expiredAfter pre false) (RS.init inp) progs
 
+/-- `serveCD` for any state of the output when `Serve` starts (`broken`: an earlier `Send` was
+abandoned inside an element) -/
+def serveCS (cfg : Cfg) (st : OutSt) (pre : List Nat) (inp : List Tok) (progs : List Prog) : Out :=
+  serveFC cfg (inp.length + 1) st (expiredAfter pre false) (RS.init inp) progs
+
 /-! ### a connection that refuses writes
 
 The encoder is buffered: what a handler (or the automatic reply) wrote reaches the connection in
@@ -782,8 +895,6 @@ def serveW (cfg : Cfg) (left : Nat) (inp : List Tok) (progs : List Prog) : Out :
 
 /-! ### tokens of the regenerated verdict table (`Generated/C08.lean`) -/
 
-def nsFraming : String := "urn:ietf:params:xml:ns:xmpp-framing"
-
 /-- the token (and what follows it) a kind name of the fact table stands for -/
 def factTok : String → Option (Tok × List Tok)
   | "ws" => some (.chars " \n", [])
@@ -800,9 +911,13 @@ def factTok : String → Option (Tok × List Tok)
   | "stream-other" => some (.start ⟨nsStream, "features"⟩ [], [.stop ⟨nsStream, "features"⟩])
   | "plain" => some (.start ⟨"urn:e", "e"⟩ [], [.stop ⟨"urn:e", "e"⟩])
   | "close" => some (.stop ⟨nsStream, "stream"⟩, [])
-  -- elements of the WebSocket framing namespace are ordinary content on a TCP stream (ws = false)
+  -- elements of the WebSocket framing namespace: ordinary content on a TCP stream, stream level
+  -- on a session that uses the WebSocket subprotocol (`factVerdictW true`)
   | "framing-open" => some (.start ⟨nsFraming, "open"⟩ [], [.stop ⟨nsFraming, "open"⟩])
   | "framing-close" => some (.start ⟨nsFraming, "close"⟩ [], [.stop ⟨nsFraming, "close"⟩])
+  | "framing-other" => some (.start ⟨nsFraming, "stream"⟩ [], [.stop ⟨nsFraming, "stream"⟩])
+  | "framing-close-attrs" => some (.start ⟨nsFraming, "close"⟩ [attr "see-other-uri" "wss://o.example/"], [.stop ⟨nsFraming, "close"⟩])
+  | "close-other-ns" => some (.start ⟨"urn:other", "close"⟩ [], [.stop ⟨"urn:other", "close"⟩])
   -- received stream errors with application-specific conditions (children in another namespace)
   | "se-app-after" => some (.start ⟨nsStream, "error"⟩ [],
       [.start ⟨nsStreams, "conflict"⟩ [], .stop ⟨nsStreams, "conflict"⟩,
@@ -835,6 +950,10 @@ def Rd.name : Rd → String
 /-- the model's verdict for a kind of the fact table at a depth -/
 def factVerdict (kind : String) (depth : Nat) : Option String :=
   (factTok kind).map fun p => (verdict depth p.1 p.2).2.name
+
+/-- the same on a session with the WebSocket flag `ws` -/
+def factVerdictW (ws : Bool) (kind : String) (depth : Nat) : Option String :=
+  (factTok kind).map fun p => (verdict depth (wsTok ws depth p.1) (wsInputD ws (depthStep depth p.1) p.2)).2.name
 
 /-! ### shapes of the detector probe (`Generated/C07.lean`, harness/c07 `ProbeToks`) -/
 
